@@ -565,6 +565,21 @@ func (w *world) newChain(db database.DB, c cfg) (*blockchain.BlockChain, error) 
 }
 
 // utxoList: sorted abstract outpoints the chain reports unspent.
+func scribble(mb *wire.MsgBlock) {
+	for _, tx := range mb.Transactions {
+		for _, o := range tx.TxOut {
+			for i := range o.PkScript {
+				o.PkScript[i] = 0xee
+			}
+		}
+		for _, in := range tx.TxIn {
+			for i := range in.SignatureScript {
+				in.SignatureScript[i] = 0xee
+			}
+		}
+	}
+}
+
 func (w *world) utxoList(ch *blockchain.BlockChain) string {
 	ids := make([]int, 0, len(w.ops))
 	for o := range w.ops {
@@ -578,6 +593,9 @@ func (w *world) utxoList(ch *blockchain.BlockChain) string {
 			return "err"
 		}
 		if e != nil && !e.IsSpent() {
+			if !bytes.Equal(e.PkScript(), opTrue) {
+				return "err-script"
+			}
 			out = append(out, strconv.Itoa(o))
 		}
 	}
@@ -868,8 +886,13 @@ func runLifeMode(root string, startDir string, w *world, c cfg, ops []string, la
 			old := w.id(&ch.BestSnapshot().Hash)
 			notes = notes[:0]
 			// a fresh copy so that cached heights of an earlier run do not leak
-			nb := btcutil.NewBlock(w.byID[id].MsgBlock())
+			cp := w.byID[id].MsgBlock().Copy()
+			nb := btcutil.NewBlock(cp)
 			main, orphan, err := ch.ProcessBlock(nb, blockchain.BFNone)
+			if !orphan {
+				// the caller reuses its buffers: nothing the node keeps may alias them
+				scribble(cp)
+			}
 			res := errClass(err)
 			if err == nil {
 				res = fmt.Sprintf("ok%s%s", b01(main), b01(orphan))
@@ -1358,18 +1381,30 @@ func (P) exec(line string) string {
 		if over {
 			k = l.n
 		}
-		kd := k - k%lazyPeriod
-		pers := ""
 		tmp := filepath.Join(r.root, "lzpers")
 		os.RemoveAll(tmp)
 		copyTree(l.img(k), tmp)
+		pers := "best=? image-unreadable"
 		if raw, err := openDBRaw(tmp, c, false); err == nil {
 			pers = r.w.persisted(raw)
 			raw.Close()
-		} else {
-			pers = "best=? image-unreadable"
 		}
 		os.RemoveAll(tmp)
+		// the durable prefix: the latest commit whose (live) persisted summary is what the image
+		// holds — found from the image, not from a rule about when ffldb flushes
+		kd := -1
+		for j := k; j >= 1; j-- {
+			if l.pers[j] == pers {
+				kd = j
+				break
+			}
+		}
+		if kd < 0 {
+			// not the image of any prefix
+			rs, v := reopenV(r.root, l.img(k), r.w, c.life(2), nil, ops, pctx{prev: map[int]bool{}, conn: l.connected, specFin: l.finTip})
+			v.tipActive = false
+			return judge(strings.Join(t, " "), fmt.Sprintf("n=%d res=%s sv=%d %s w=? no-prefix %s", l.n, strings.Join(l.res, "."), l.snapChanged, pers, rs), v)
+		}
 		rs, v := reopenV(r.root, l.img(k), r.w, c.life(2), l.acked(kd), ops,
 			pctx{prev: prevSet(l.bestAt[:kd+1]), conn: l.connected, specFin: l.finTip})
 		v.prunedTip = !v.reopened && prunedTip(c, pers)
@@ -1957,7 +1992,8 @@ func (P) Generate(g *core.Gen) {
 			g.Case(class+"-torn", true, fmt.Sprintf("C04 torn %s %d", key, 4+g.R.Intn(n-3)))
 		}
 		// power loss with a lazily flushed metadata cache: the image of the durable prefix
-		for i := 0; i < 3 && n > 6; i++ {
+		lazyHere := g.Thorough() || class == "linear" || class == "reorg" || class == "prune" || class == "prune-fit"
+		for i := 0; lazyHere && i < 3 && n > 6; i++ {
 			g.Case(class+"-lazy", true, fmt.Sprintf("C04 lazy %s %d", key, 3+g.R.Intn(n-2)))
 		}
 		// power-loss images: block files cut back to what had been fsynced at commit k
@@ -2196,6 +2232,21 @@ func (p P) ClassifyMismatch(line, goOut, leanOut string) string {
 	// writes into transactions (commit indices, windows, exact persisted fields)
 	if v, ok := lastVerdict[strings.Join(strings.Fields(line), " ")]; ok {
 		if v.reopened && v.tipActive && v.utxoFold && v.indexKnows && v.apis && !v.converged && v.lost {
+			// when the run is aligned with the model (every field but `fin` agrees) the final
+			// state must also be exactly the one the model of the code predicts
+			gf, lf := fields(goOut), fields(leanOut)
+			aligned := len(gf) == len(lf)
+			for k, x := range gf {
+				if k != "fin" && lf[k] != x {
+					aligned = false
+				}
+			}
+			if aligned {
+				g, l := strings.Split(gf["fin"], ";"), strings.Split(lf["fin"], ";")
+				if len(g) != 3 || len(l) != 3 || g[1] != l[1] || g[2] != l[2] {
+					return ""
+				}
+			}
 			return "F-C04-a"
 		}
 		if !v.reopened && v.prunedTip {
